@@ -918,7 +918,12 @@ class BzrFastExporter:
                 git_ref = b"refs/tags/%s" % tag.encode("utf-8")
                 if self.plain_format and not check_ref_format(git_ref):
                     if self.rewrite_tags:
-                        new_ref = sanitize_ref_name_for_git(git_ref)
+                        # Only the tag name is rewritten: sanitizing the whole
+                        # ref turns b"refs/tags/.x" into b"refs/tags_x", which
+                        # is not a tag any more.
+                        new_ref = b"refs/tags/" + sanitize_ref_name_for_git(
+                            tag.encode("utf-8")
+                        )
                         self.warning(
                             "tag %r is exported as %r to be valid in git.",
                             git_ref,
